@@ -177,7 +177,7 @@ func verif_harness_C11_hdr_rows() {
 	logarithmic = ladder
 	type row struct {
 		value, q, oneBy float64
-		count          int64
+		count           int64
 	}
 	var rows []row
 	headers := 0
